@@ -24,6 +24,16 @@ def check(prop, tier, only):
                 depth = 3 if quick or cfg in ("rel", "dbg16") else 4
                 jobs.append(checks.J(f"h_joint_p{k}", cfg, f"--part {s} --of {shards} --depth {depth}",
                                      name=f"joint/types{k}mod{PARTS}/shard{s}of{shards}/depth{depth}[{cfg}]"))
+    # extension TU h_joint_x: (a) element constructors that throw at every position of every joint_array / vector
+    # construction form, (b) all histories of growing vectors / raw joint_allocator nodes in every release order /
+    # arrays on the joint memory of one object
+    for cfg in cfgs:
+        jobs.append(checks.J("h_joint_x", cfg, "--mode throw", name=f"joint/throwing-constructors[{cfg}]"))
+        gdepth = 6 if quick or cfg in ("dbg", "dbg16") else 7
+        gshards = 8 if gdepth == 6 else 30
+        for s in range(gshards):
+            jobs.append(checks.J("h_joint_x", cfg, f"--mode grow --part {s} --of {gshards} --depth {gdepth}",
+                                 name=f"joint/grow/shard{s}of{gshards}/depth{gdepth}[{cfg}]"))
     note = ("Real joint_ptr/joint_allocator/joint_array code driven through generated joint types (3 member layouts: "
             "two joint_arrays; joint_array + vector<_, joint_allocator>; vector first + joint_array; 15 x 15 element "
             "(size, alignment) pairs from {1,2,4,8,16}^2 with size a multiple of the alignment). Oracle per step: the "
@@ -34,7 +44,12 @@ def check(prop, tier, only):
             "request that does not fit the aligned-bump reference model must throw out_of_fixed_memory, release the block "
             "and leave everything else intact; element constructions/destructions balance; contents of an object (e.g. a "
             "clone) stay intact when any other object is destroyed; get_allocator() of an owning joint_ptr is the upstream "
-            "its block came from.")
+            "its block came from. Extension: joint types with element types whose k-th construction throws (every k, all "
+            "construction forms incl. initializer_list, copy and move with allocator) must leave every constructed element "
+            "destroyed exactly once, no destructor on storage without a live element, the block released once with its size; "
+            "and all histories (depth 6/7) of vector growth 1,2,4,8,16 / shrink_to_fit / joint_allocator::allocate_node of "
+            "1..24 bytes / deallocate_node of any live raw node / joint_array on ONE object's joint memory must keep all live "
+            "pieces inside the block, aligned, pairwise disjoint and their contents intact.")
     assumptions = [
         "x86-64, libstdc++: which requests a vector<_, joint_allocator> makes (none for an empty buffer, exactly n elements "
         "for reserve(n) / vector(n, alloc) / copy or move with an unequal allocator) is part of the reference model",
